@@ -2,6 +2,7 @@ import Driver.Proto
 import XsdataModel.Py.TblEnv
 import XsdataModel.Lex.Dates
 import XsdataModel.Lex.Period
+import XsdataModel.Lex.Stdlib
 open Lean Proto Py Xs.Dates
 
 namespace OpsDates
@@ -84,6 +85,47 @@ def run (op : String) (a : Json) : Option (Except String Json) :=
       match v with
       | [some y, some m, some d] => pure <| ok (jInt (daysFromCivil y m d))
       | _ => .error "arity"
+  | "date.to_std" => some do
+      let v ← ints a "v"; let kind ← getStr a "kind"
+      let pe : PyErr → Json := fun x => match x with
+        | .valueError => err "ValueError" | .overflowError => err "OverflowError"
+      match String.ofList kind, v with
+      | "date.to_date", [y, m, d, o] => do
+          pure <| match XmlDate.toDate ⟨← req y, ← req m, ← req d, o⟩ with
+            | .ok r => ok (jList jInt [r.year, r.month, r.day])
+            | .error x => pe x
+      | "date.to_datetime", [y, m, d, o] => do
+          pure <| match XmlDate.toDatetime ⟨← req y, ← req m, ← req d, o⟩ with
+            | .ok r => ok (jList (jOpt jInt) [some r.year, some r.month, some r.day, some r.hour, some r.minute,
+                some r.second, some r.microsecond, r.utcoffset])
+            | .error x => pe x
+      | "time.to_time", [h, mi, s, f, o] => do
+          pure <| match XmlTime.toTime ⟨← req h, ← req mi, ← req s, ← req f, o⟩ with
+            | .ok r => ok (jList (jOpt jInt) [some r.hour, some r.minute, some r.second, some r.microsecond, r.utcoffset])
+            | .error x => pe x
+      | "datetime.to_datetime", [y, m, d, h, mi, s, f, o] => do
+          pure <| match XmlDateTime.toDatetime ⟨← req y, ← req m, ← req d, ← req h, ← req mi, ← req s, ← req f, o⟩ with
+            | .ok r => ok (jList (jOpt jInt) [some r.year, some r.month, some r.day, some r.hour, some r.minute,
+                some r.second, some r.microsecond, r.utcoffset])
+            | .error x => pe x
+      | k, _ => .error s!"bad kind/arity {k}"
+  | "date.from_std" => some do
+      let v ← ints a "v"; let kind ← getStr a "kind"
+      match String.ofList kind, v with
+      | "date.from_date", [y, m, d] => do
+          let r := XmlDate.fromDate ⟨← req y, ← req m, ← req d⟩
+          pure <| ok (jList (jOpt jInt) [some r.year, some r.month, some r.day, r.offset])
+      | "date.from_datetime", [y, m, d, h, mi, s, us, u] => do
+          let r := XmlDate.fromDatetime ⟨← req y, ← req m, ← req d, ← req h, ← req mi, ← req s, ← req us, u⟩
+          pure <| ok (jList (jOpt jInt) [some r.year, some r.month, some r.day, r.offset])
+      | "time.from_time", [h, mi, s, us, u] => do
+          let r := XmlTime.fromTime ⟨← req h, ← req mi, ← req s, ← req us, u⟩
+          pure <| ok (jList (jOpt jInt) [some r.hour, some r.minute, some r.second, some r.frac, r.offset])
+      | "datetime.from_datetime", [y, m, d, h, mi, s, us, u] => do
+          let r := XmlDateTime.fromDatetime ⟨← req y, ← req m, ← req d, ← req h, ← req mi, ← req s, ← req us, u⟩
+          pure <| ok (jList (jOpt jInt) [some r.year, some r.month, some r.day, some r.hour, some r.minute,
+            some r.second, some r.frac, r.offset])
+      | k, _ => .error s!"bad kind/arity {k}"
   | "py.int" => some do
       let s ← getStr a "s"
       pure <| match tblEnv.pyInt s with
